@@ -16,6 +16,17 @@ CLAIMED = {
         technique="contract-based deductive verification: VC generation from the real AST, SMT discharge (z3, cvc5)"),
 }
 
+CLAIMED["C13"] = dict(
+    engine="pyvc", category="proof", design_ref="DESIGN.md section 5 C13",
+    text="Contracts on the real suppression kernel of mypy/errors.py proved for all inputs: is_error_code_enabled (documented precedence), is_ignored_error (blockers never; matches iff line ignored and code or parent code listed), add_error_info (shown iff not filtered/suppressed/ignored-file/only-once duplicate; used-ignore bookkeeping only for the first matching line and only for enabled codes; ignore tables untouched; tail only attaches notes), and the exit-status statements of main.main (0 iff every message is a note, 2 iff blockers).",
+    level_note="Trusted: z3/cvc5, engine encoding of Python. Callee contracts assumed inside add_error_info: _filter_error (arbitrary bool), has_many_errors, note_for_info/_add_error_info (recorded). count_stats is proved only for lists of <= 2 messages (bounded stand-in, reported separately). Not decided: routing of every checker diagnostic through report with the right span/code; generate_unused_ignore_errors; the link between the ': note:' marker and the severity of a rendered message (see known findings).",
+    technique="contract-based deductive verification: VC generation from the real AST with loop invariants and cut points, SMT discharge (z3, cvc5)")
+CLAIMED["C14"] = dict(
+    engine="pyvc", category="proof", design_ref="DESIGN.md section 5 C14",
+    text="Data-structure invariant 'a reported end position is not before the start' proved at every construction site of ErrorInfo in mypy/errors.py (Errors.report for all integer/None arguments, report_simple_error, note_for_info preserves it).",
+    level_note="One clause of the property only. Not decided: parser equivalence (native vs default), line exists / column within line (needs the source text). ErrorInfo.read (cache replay) relies on the writer. Trusted: z3, engine encoding.",
+    technique="contract-based deductive verification: VC generation from the real AST, SMT discharge (z3)")
+
 NOT_APPLICABLE = {
     "C01": "soundness of the whole checker against CPython's dynamic semantics: no per-function contract expresses it (DESIGN.md 5 C01)",
     "C05": "compiler correctness of mypyc end to end: a simulation proof, not a function contract (DESIGN.md 5 C05); the numeric leaf is C15",
@@ -30,8 +41,6 @@ NOT_APPLICABLE = {
     "C09": "not yet built in this round",
     "C10": "not yet built in this round",
     "C11": "not yet built in this round",
-    "C13": "not yet built in this round",
-    "C14": "not yet built in this round",
     "C15": "not yet built in this round",
     "C16": "not yet built in this round",
     "C18": "not yet built in this round",
